@@ -189,6 +189,7 @@ func RunReplay(t *testing.T, harnesses map[string]func()) {
 	if os.Getenv("ZZVERIF_REPEAT") != "" {
 		fmt.Sscan(os.Getenv("ZZVERIF_REPEAT"), &repeat)
 	}
+	defer cleanupTemp()
 	for i := 0; i < repeat; i++ {
 		reset()
 		func() {
@@ -235,4 +236,13 @@ func Methods(obj interface{}) []string {
 	}
 	sort.Strings(out)
 	return out
+}
+
+var tempDirs []string
+
+func cleanupTemp() {
+	for _, d := range tempDirs {
+		os.RemoveAll(d)
+	}
+	tempDirs = nil
 }
